@@ -222,10 +222,10 @@ struct Rig
     Rig &operator=(const Rig &) = delete;
     // the library's set-up call on the same buffer: everything received before it is forgotten
     int reinits = 0;
-    void reinit()
+    void reinit(int variant = 0)
     {
         mc::crash_context("C05.%s.init.memory", gs::codec_name(codec));
-        r->reinit();
+        r->reinit(variant);
         mc::crash_context("C05.harness");
         reinits++;
         stream.clear();
